@@ -100,6 +100,7 @@ commit(ec_curve_t *E_com, quat_left_ideal_t *lideal_com, ec_basis_t *B_com)
     copy_point(&B_com->P, &ResP.P2);
     copy_point(&B_com->Q, &ResQ.P2);
     copy_point(&B_com->PmQ, &ResPmQ.P2);
+    theta_chain_finalize(&F);
 
     ibz_finalize(&n);
     ibz_finalize(&adj);
